@@ -64,3 +64,27 @@ _engine("C16", "TestC16",
         "op programs with resize (grow by 1-32 blocks, equal, shrink, unparsable) interleaved with writes, snapshots, removals, reopen; "
         "old bytes and every retained snapshot unchanged, new range zero and writable, Info().Size, every chain file length and "
         "volume.meta size equal the new size, also after reopen; non-trivial = >=1 accepted grow after a write and a snapshot")
+
+PLAN["C15"] = {
+    "level": "exploration",
+    "rule": ("(a) generated frames (all ten types and arbitrary ones, offsets/sizes over the int64 range, payload 0-256 KiB around the 8096-byte "
+             "buffer boundaries) through rpc.Wire.Write -> bytes -> rpc.Wire.Read, compared field by field and byte-for-byte with an independent "
+             "reference encoder/decoder; (b) the real rpc.Client on loopback TCP against a scripted peer: 1-64 concurrent read/write/sync/unmap/ping, "
+             "replies in a generated permutation with generated reply types, duplicate and unknown sequence numbers injected, every call must get the "
+             "reply scripted for its own request; (c) failure scripts: stall (short deadline for the stalled type only, 25 s for all others), close, "
+             "half-close, bad magic, truncated frame at a generated point - pending calls fail within 9 s, later calls within 1 s, the close channel is "
+             "notified; non-trivial = frames with payload beyond one buffer / negative offset / unknown type, scripts with >=2 concurrent calls"),
+    "assumptions": ["deadlines are shortened through the verif hook rpc.VerifSetTimeouts; loopback TCP stands for the replica connection",
+                    "the reference codec was written from the documented frame layout, not derived from rpc/wire.go"],
+    "technique": "property-based testing (rapid): round-trip + differential codec, scripted-peer model of the RPC client",
+    "quick": {"wall": 150, "tests": [
+        {"run": "TestC15Frames", "shards": 2, "checks": 1500, "timeout": 100},
+        {"run": "TestC15Matching", "shards": 4, "checks": 250, "timeout": 100},
+        {"run": "TestC15Failure", "shards": 10, "checks": 12, "timeout": 120, "shrink": "30s"},
+    ]},
+    "thorough": {"wall": 900, "tests": [
+        {"run": "TestC15Frames", "shards": 2, "checks": 40000, "timeout": 800},
+        {"run": "TestC15Matching", "shards": 4, "checks": 6000, "timeout": 800},
+        {"run": "TestC15Failure", "shards": 10, "checks": 200, "timeout": 800, "shrink": "60s"},
+    ]},
+}
